@@ -2,6 +2,7 @@ package servermc
 
 import (
 	"fmt"
+	"github.com/youzan/ZanRedisDB/rockredis"
 	"sort"
 	"strings"
 
@@ -408,4 +409,58 @@ func RunPartialHost(col *ev.Collector, n *Node) (cmds int) {
 		}
 	}
 	return cmds
+}
+
+// RunRecreated: a namespace that existed with 2 partitions is created again with 4 while a replica of the
+// old layout is still registered on the node (the old partition 0 lingers). Every key must be routed by the
+// new partition count, as the SDK does for a 4-partition namespace.
+func RunRecreated(col *ev.Collector, n *Node) (keys int) {
+	const base = "re"
+	raftAddr := fmt.Sprintf("http://127.0.0.1:%d", n.Port+2)
+	initPart := func(i, parts int, gid uint64) error {
+		ns := node.NewNSConfig()
+		ns.Name = fmt.Sprintf("%s-%d", base, i)
+		ns.BaseName = base
+		ns.EngType = rockredis.EngType
+		ns.PartitionNum = parts
+		ns.Replicator = 1
+		ns.SnapCount = 100000
+		ns.ExpirationPolicy = common.WaitCompactExpirationPolicy
+		ns.DataVersion = common.ValueHeaderV1Str
+		ns.RaftGroupConf.GroupID = gid
+		ns.RaftGroupConf.SeedNodes = append(ns.RaftGroupConf.SeedNodes, node.ReplicaInfo{NodeID: 1, ReplicaID: 1, RaftAddr: raftAddr})
+		nn, err := n.Srv.InitKVNamespace(1, ns, false)
+		if err != nil {
+			return err
+		}
+		return nn.Start(false)
+	}
+	if err := initPart(0, 2, 2000); err != nil {
+		col.Outcome("recreated:init-old-failed:" + err.Error())
+		return 0
+	}
+	for i := 1; i < 4; i++ {
+		if err := initPart(i, 4, uint64(2000+i)); err != nil {
+			col.Outcome("recreated:init-new-failed:" + err.Error())
+			return 0
+		}
+	}
+	for i := 0; i < 400; i++ {
+		pk := []byte(fmt.Sprintf("tbl:key-%d", i))
+		want := node.GetHashedPartitionID(pk, 4) // what the SDK computes (agreement with the SDK is the first part of the check)
+		nn, err := n.Srv.GetNamespace(base, pk)
+		keys++
+		if want == 0 {
+			continue // the new partition 0 does not exist on this node (the old one lingers under its name)
+		}
+		if err != nil || nn == nil {
+			col.Add(ev.Violation{Property: "C15", Signature: "C15|recreated|no-owner", What: fmt.Sprintf("namespace created again with 4 partitions (was 2): key %q of partition %d has no owner on the node that hosts it: %v", pk, want, err)})
+			return keys
+		}
+		if nn.FullName() != fmt.Sprintf("%s-%d", base, want) {
+			col.Add(ev.Violation{Property: "C15", Signature: "C15|recreated|routed-by-old-partition-count", What: fmt.Sprintf("namespace created again with 4 partitions (was 2): key %q belongs to partition %d (SDK) but the server routes it to %s", pk, want, nn.FullName())})
+			return keys
+		}
+	}
+	return keys
 }
